@@ -1,0 +1,26 @@
+//go:build verif
+
+package cache
+
+// Contracts for the verifier in /verif (comment-only; see /verif/DESIGN.md §3).
+
+//@ immutable httpLRUCache: cache, mu
+//@ immutable dispatcher: zoneSize, hitForPass, list, store
+
+//@ func newHTTPLRUCache(size int) (c *httpLRUCache)
+//@   nopanic
+//@   ensures [fresh] fresh(c)
+//@   ensures [limit] c.cache != nil && c.cache.MaxEntries == size
+//@   ensures [mu] c.mu != nil
+
+//@ func NewDispatcher(option DispatcherOption) (d *dispatcher)
+//@   ensures [zones] d != nil && len(d.list) == d.zoneSize && d.zoneSize >= 1
+//@   ensures [limit] option.Size >= 1 ==> forall i int :: 0 <= i && i < len(d.list) ==> d.list[i].cache.MaxEntries >= 1
+//@   ensures [total] option.Size >= 1 ==> forall i int :: 0 <= i && i < len(d.list) ==> d.zoneSize * d.list[i].cache.MaxEntries <= option.Size
+//@   ensures [nonnil] forall i int :: 0 <= i && i < len(d.list) ==> d.list[i] != nil && d.list[i].cache != nil && d.list[i].mu != nil
+//@   ensures [distinct] forall i, j int :: 0 <= i && i < j && j < len(d.list) ==> d.list[i] != d.list[j]
+//@   ensures [hfp] d.hitForPass == option.HitForPass
+//@   loop 0: modifies list[*]
+//@   loop 0: invariant [range] 0 <= i && i <= zoneSize && len(list) == zoneSize
+//@   loop 0: invariant [filled] forall k int :: 0 <= k && k < i ==> list[k] != nil && allocated(list[k]) && list[k].cache != nil && list[k].cache.MaxEntries == lruSize && list[k].mu != nil
+//@   loop 0: invariant [distinct] forall k, j int :: 0 <= k && k < j && j < i ==> list[k] != list[j]
